@@ -7,6 +7,7 @@
 (* as a Send event, which WalletMsg_Trace then judges in full.                 *)
 (*   version x message count in {0, 1, max-1, max, max+1} x seqno class x      *)
 (*   expiry class x mode class  ->  "ok" (n <= max) | "refused" (n = max + 1)  *)
+(* plus, for wallet v5r1, the extended-action dimension (XCases below).       *)
 EXTENDS WalletMsg, Json
 CONSTANTS SeqClasses, ExpClasses, ModeClasses
 
@@ -18,10 +19,16 @@ U32Class(c) == CASE c = "zero" -> "0"
                  [] c = "max"  -> BitsToDec([i \in 1..32 |-> 1])
                  [] c = "rand" -> "rand"                         \* drawn by the harness from the whole range
 Counts(ver) == {0, 1, MaxMsgs(ver) - 1, MaxMsgs(ver), MaxMsgs(ver) + 1}
-Cases == {[ver |-> ver, n |-> n, seqno |-> U32Class(sc), vu |-> U32Class(ec), modes |-> mc,
+Plain == {[ver |-> ver, n |-> n, seqno |-> U32Class(sc), vu |-> U32Class(ec), modes |-> mc, via |-> "send", ext |-> <<>>, mt |-> "ext",
            exp |-> IF n <= MaxMsgs(ver) THEN "ok" ELSE "refused"] :
             ver \in Versions, n \in UNION {Counts(x) : x \in Versions}, sc \in SeqClasses, ec \in ExpClasses, mc \in ModeClasses}
-Wanted == {c \in Cases : c.n \in Counts(c.ver)}
+\* wallet v5r1 extended actions (via = "x": built through CreateSignedMsgBodyCell): none / 1 / 2 / 3 actions of the three kinds
+\* x 0 / 1 / many out messages x externally / internally signed message type; always within the limit, hence "ok"
+ExtLists == {<<>>, <<"add">>, <<"remove">>, <<"sigauth">>, <<"add", "remove">>, <<"sigauth", "add">>,
+             <<"add", "remove", "sigauth">>, <<"remove", "sigauth", "add">>}
+XCases == {[ver |-> "V5R1", n |-> n, seqno |-> U32Class("max"), vu |-> U32Class("2^31"), modes |-> "mixed", via |-> "x", ext |-> x, mt |-> mt,
+            exp |-> "ok"] : n \in {0, 1, 3}, x \in ExtLists, mt \in {"ext", "int"}}
+Wanted == {c \in Plain : c.n \in Counts(c.ver)} \cup XCases
 
 VARIABLE c
 Init == c \in Wanted
